@@ -671,7 +671,9 @@ def judge(ck, records, name, flags, count=True, chunk=None):
             else:
                 rr = runs.get(tid, {})
                 why = rr.get(frozenset(), {}).get("why", "?")
-                if rr.get(frozenset(), {}).get("match") and why != "full":   # "full": fields only a complete run has (monitor, .gro, first residue)
+                # consistency of the model: an observation equal to the intended I-layer state in every compared field cannot fail a
+                # P-layer conjunct over those fields ("parse", "hand", "full" also look at fields the I-layer state does not have)
+                if rr.get(frozenset(), {}).get("match") and why in ("err", "nodes", "tags", "start", "lig", "restr"):
                     raise c.MachineryError("record %d equals the intended I-layer state but the P-layer rejects it (%s): the model is inconsistent" % (off + tid, why))
                 full = rr.get(frozenset(flags)) if flags else None
                 if full and full["match"]:
@@ -806,6 +808,8 @@ def run(tier):
     quick = tier == "quick"
     sd = c.seed()
     rng = random.Random(sd)
+    if os.environ.get("C18_NO_KNOWN"):      # development switch: judge as if no finding were recorded as known
+        ck._known = {}
     flags = known_flags(ck)
     ck.rule = ("S->I: every case of the families of spec/MC_Select.tla (molecule lists of length 1..%d over 3 names x block header name/lo/hi in 0..5; "
                "residue-name sequences of length 1..4 x directive name/lo/hi; two overlapping/adjacent blocks and residue lines; all 16 omission "
@@ -848,13 +852,11 @@ def run(tier):
     cases = ex1.cases() + ex2.cases() + ex3.cases()
     if len(cases) < 1000:
         raise c.MachineryError("export produced only %d cases" % len(cases))
-    acts = {}
-    for cs in cases:
-        cc = cs["c"]
-        for a, n in (("SplitMolecule", len(cc["mols"]) if cc["split"] else 0), ("ParseLine", len(cc["bld"])), ("Finalize", 1), ("FindStart", len(cc["start"])),
-                     ("AnnotateSpec", len(cc["lig"])), ("Connect", len(cc["mols"]) if cc["lig"] else 0), ("SplitLigands", 1 if cc["lig"] and not cs["x"]["err"] else 0), ("Build", 1), ("Backmap", 1 if not cs["x"]["err"] else 0), ("Engine", 1 if cc["lig"] else 0),
-                     ("SamplePers", sum(1 for l in cc["bld"] if l["k"] == "pers")), ("SetRestraints", sum(1 for l in cc["bld"] if l["k"] == "dist"))):
-            acts[a] = acts.get(a, 0) + n
+    acts = {a: 0 for a in ("SplitMolecule", "ParseLine", "Finalize", "FindStart", "AnnotateSpec", "Connect", "Engine", "SamplePers", "SetRestraints",
+                           "Build", "SplitLigands", "Backmap")}
+    for cs in cases:            # the actions every exported behaviour actually took
+        for a in cs["a"]:
+            acts[a] = acts.get(a, 0) + 1
     for a, n in acts.items():
         if n == 0:
             raise c.MachineryError("I-layer action %s is never taken in the exported families (vacuous)" % a)
@@ -880,8 +882,11 @@ def run(tier):
             ck.nontrivial.add(_key(cases[i]["c"]))
             if same is not True:
                 todo.append({"c": cases[i]["c"], "o": obs, "x": cases[i]["x"]})
-    mid = cases[len(cases) // 2]
-    ck.sample({"S->I case": describe(mid["c"])["options"], "bld": describe(mid["c"])["bld"], "expected end state": {k: mid["x"][k] for k in ("err", "geom", "start", "was", "handed")}})
+    mid = ([cs for cs in cases if cs["c"]["fam"] == "multi" and sum(len(t) for m in cs["x"]["geom"] for t in m) > 3] or cases)[0]
+    ck.sample({"S->I case": describe(mid["c"])["options"], "bld": describe(mid["c"])["bld"], "molecules": mid["c"]["mols"],
+               "expected end state": {k: mid["x"][k] for k in ("err", "geom", "rw")}})
+    lg = ([cs for cs in cases if cs["c"]["fam"] == "lig" and cs["x"]["handed"]] or cases)[0]
+    ck.sample({"S->I case": describe(lg["c"])["options"], "molecules": lg["c"]["mols"], "expected end state": {k: lg["x"][k] for k in ("err", "was", "handed")}})
     ck.extra["replay_not_identical_to_intended"] = len(todo)
     ck.stage("judge %d replays that differ from the intended I-layer state" % len(todo))
     v = judge(ck, todo, "judge_replay", flags)
